@@ -109,7 +109,7 @@ Definition c17_start (fx : codefacts) : store :=
 (* Create checks the count once for several mailboxes (defect D15) *)
 Theorem C17_create_single_check_refuted :
   exists h, Forall op_small h /\ inv17 c17_cfg (init_store 100) /\
-    c_max_mbox c17_cfg < zlen (s_mboxes (run (fun l => Some l) (mkFacts true false true true true true) c17_cfg (fun _ => 0) (init_store 100) h)).
+    c_max_mbox c17_cfg < zlen (s_mboxes (run (fun l => Some l) (mkFacts true false true true true true true) c17_cfg (fun _ => 0) (init_store 100) h)).
 Proof.
   exists [OConnCreate inbox_name; OCreate [2%N; 3%N; 4%N; 5%N; 6%N] true]. split; [|split].
   - repeat constructor; vm_compute; reflexivity.
@@ -121,7 +121,7 @@ Print Assumptions C17_create_single_check_refuted.
 (* Rename creates superiors without a check *)
 Theorem C17_rename_unchecked_refuted :
   exists h, Forall op_small h /\ inv17 c17_cfg (init_store 100) /\
-    c_max_mbox c17_cfg < zlen (s_mboxes (run (fun l => Some l) (mkFacts true true false true true true) c17_cfg (fun _ => 0) (init_store 100) h)).
+    c_max_mbox c17_cfg < zlen (s_mboxes (run (fun l => Some l) (mkFacts true true false true true true true) c17_cfg (fun _ => 0) (init_store 100) h)).
 Proof.
   exists [OConnCreate inbox_name; OCreate [2%N] true; ORename [2%N] [3%N; 4%N; 5%N; 6%N] true]. split; [|split].
   - repeat constructor; vm_compute; reflexivity.
@@ -133,7 +133,7 @@ Print Assumptions C17_rename_unchecked_refuted.
 (* the limits are checked only in the read transaction of APPEND (defect D19): two interleaved APPENDs both pass *)
 Theorem C17_append_toctou_refuted :
   exists h m, iops_small h /\
-    let st := irun (fun l => Some l) (mkFacts false true true true true true) c17_cfg (fun _ => 0) (c17_start facts_fixed, []) h in
+    let st := irun (fun l => Some l) (mkFacts false true true true true true true) c17_cfg (fun _ => 0) (c17_start facts_fixed, []) h in
     In m (s_mboxes (fst st)) /\ mb_id m <> recov_id /\ c_max_msgs c17_cfg < zlen (mb_rows m).
 Proof.
   exists [ICheck 1 inbox_name; ICheck 2 inbox_name; IWrite 1 7%N RemOk; IWrite 2 8%N RemOk].
@@ -144,7 +144,7 @@ Print Assumptions C17_append_toctou_refuted.
 (* a limit-refused APPEND falls back to the recovery mailbox: it grows without any remote rejection *)
 Theorem C17_limit_error_recovered_refuted :
   exists h, (forall o, In o h -> forall n l, o <> OAppend n l RemFail) /\
-    c_max_msgs c17_cfg < zlen (rec_rows (run (fun l => Some l) (mkFacts true true true false true true) c17_cfg (fun _ => 0) (init_store 100) h)).
+    c_max_msgs c17_cfg < zlen (rec_rows (run (fun l => Some l) (mkFacts true true true false true true true) c17_cfg (fun _ => 0) (init_store 100) h)).
 Proof.
   exists [OConnCreate inbox_name; OAppend inbox_name 1%N RemOk; OAppend inbox_name 2%N RemOk; OAppend inbox_name 3%N RemOk].
   split; [|vm_compute; reflexivity].
